@@ -148,3 +148,11 @@ Proof.
   split; [unfold NO_CANDIDATE; lia|]. split; [reflexivity|]. split; [reflexivity|].
   split; [reflexivity|]. split; [discriminate|reflexivity].
 Qed.
+
+(* why the last-but-one guard is there: with no valid vote the code's formula is 0/0 (nan), while 2 * mean - 1 = 0 *)
+Example C02_margin_tally_supermajority_no_valid_vote :
+  let cs := [mkcard [(1, [])] false; mkcard [(1, [(1, MBool true); (2, MInt 1)])] false] in
+  find_margin_from_tally None (Some (mktally (tally_contest true 1 1 cs) true)) SUPERMAJORITY 1 ALL_OTHERS 2 (1 # 2)%Q
+                         [1; 2; 3] = Val NaN /\
+  close_x (mean true 1 (assort_sm 1 (1 # 2)%Q 1 (sm_cands 1 [2; 3])) cs) (Fin (1 # 2)%Q) = true.
+Proof. vm_compute. split; reflexivity. Qed.
